@@ -16,12 +16,14 @@ def run(ctx):
     w = 5 if ctx.quick else 8
     with concurrent.futures.ThreadPoolExecutor(max_workers=3 if ctx.quick else 2) as ex:
         list(ex.map(lambda c: ctx.design("Output/OutImpl.tla", c, workers=w, timeout=300 if ctx.quick else 1500, heap="6g" if ctx.quick else "12g",
+                                         extra=["-noGenerateSpecTE"],
                                          note="mechanism, all programs x all accept-prefix/would-block schedules; Out invariants on the mapped variables"), cfgs))
     must = [MUST_FAIL[0], MUST_FAIL[3]] if ctx.quick else MUST_FAIL
     found = {}
 
     def selftest(c):
-        r = ctx.tlc("Output/OutImpl.tla", c, workers=3, timeout=600, heap="4g", count=False, note="self-test: a counterexample is expected")
+        r = ctx.tlc("Output/OutImpl.tla", c, workers=3, timeout=600, heap="4g", count=False, extra=["-noGenerateSpecTE"],
+                    note="self-test: a counterexample is expected")
         found[c] = r.violated
         if r.failed or not r.violated:
             ctx.undecided.append("Leg D self-test %s: TLC found no counterexample (rc=%s)\n%s" % (c, r.rc, r.out[-1500:]))
